@@ -59,6 +59,16 @@ CHECKS = {
     "C20": ("explicit-state BFS (depth-bounded) over interleavings on 2-3 instances, states rebuilt by replay, fresh-instance probe",
             "All interleavings of construct / construct-with-list / decode / add / remove / edit over two (three) slots "
             "per class; each slot must equal its own model after every step and a fresh instance must be empty.", "3 C20"),
+    "C07": ("fault enumeration over an explicit-state BFS of the real container: every rejection cause x API x position in every reachable state, differential continuation",
+            "Each failing request (duplicate, full, absent, bad label first/middle/last, unsupported format, wrong "
+            "object, bad comment, hole) is executed in every reachable state of small configurations; sha256 unchanged, "
+            "memory table == disk, and continuation ops agree with the twin history without the failed call.", "3 C07"),
+    "C08": ("explicit-state BFS to fixpoint of the access-mode machine on one real Tdf object (replay-rebuilt states)",
+            "All interleavings of allow_write / enter / exit / exit-with-exception / 8 mutators / 26 readers; bytes "
+            "change only for mutators in a write-enabled context; descriptors counted via /proc/self/fd.", "3 C08"),
+    "C17": ("exhaustive enumeration target kind x source state (from K) x op x path type, then one-op mutations of either side",
+            "Tdf.new / copy against absent, TDF, non-TDF and empty targets from every source state up to depth 2 (3); "
+            "opening absent / empty / non-TDF / truncated files.", "3 C17"),
 }
 NOT_YET = {}
 
